@@ -29,6 +29,12 @@ def canon_time(x):
         return "np:" + str(x)
     if ts is pd.NaT:
         return "NaT"
+    if ts.tzinfo is not None:       # tz-aware: the instant, in UTC, marked
+        ts = ts.tz_convert("UTC").tz_localize(None)
+        try:
+            return ts.as_unit("ns").isoformat() + "Z"
+        except Exception:    # noqa
+            return ts.isoformat() + "Z"
     try:
         return ts.as_unit("ns").isoformat()
     except Exception:        # noqa  out of the ns range
@@ -88,7 +94,10 @@ def oracle_entry(x):
     except Exception:       # noqa
         out.append([])
     try:
-        out.append([enc(canon_time(np.datetime64(x)))])
+        import warnings
+        with warnings.catch_warnings():
+            warnings.simplefilter("ignore")
+            out.append([enc(canon_time(np.datetime64(x)))])
     except Exception:       # noqa
         out.append([])
     try:
@@ -110,6 +119,11 @@ def oracle_entry(x):
             out.append([enc(canon_float(np.float32(x)))])
     except Exception:       # noqa
         out.append([])
+    try:        # val_from_meta for a tz-aware column (the metadata zone matters only for texts without an offset: UTC here)
+        ts = pd.Timestamp(x)
+        out.append([enc(canon_time(ts if ts.tzinfo is not None else ts.tz_localize("UTC")))])
+    except Exception:       # noqa
+        out.append([])
     return out
 
 
@@ -124,6 +138,8 @@ def kind_of_meta(m):
         return None
     if m.get("pandas_type") == "categorical":
         return [5]
+    if m.get("pandas_type") == "datetimetz":
+        return [7]
     t = str(m.get("numpy_type"))
     if t == "bool":
         return [1]
@@ -142,7 +158,7 @@ def kind_of_dtype(dt):
     if isinstance(dt, pd.CategoricalDtype):
         return [5], None
     if isinstance(dt, pd.DatetimeTZDtype):
-        return [4, dt.unit == "ns"], "t"
+        return [7], "t"
     if isinstance(dt, pd.api.extensions.ExtensionDtype):
         n = str(dt)
         if n == "boolean":
